@@ -1640,6 +1640,10 @@ async fn judge_run(sc: &Scenario, out: &RunOut) -> Judged {
                 ),
             ));
         }
+    } else if sc.common == 0 && !sc.a_chain.is_empty() {
+        // B's chain starts from another block 1: nothing of it can be connected to what A holds,
+        // so there is no chain A has to adopt and no block it needs; what is judged is that the
+        // exchange does no harm (no panic, settles, A's tip height does not go down - below)
     } else {
         if adopt && !converged {
             raw.push((
